@@ -5,12 +5,66 @@ mod verif_c11 {
     use crate::dic::read::u16str::{skip_u16_string, utf16_string_parser};
 
     const N: usize = /*@NBUF@*/10;
+    const NS: usize = 5; // bound of the replay-only siblings
 
     fn any_buf() -> ([u8; N], usize) {
         let buf: [u8; N] = kani::any();
         let len: usize = kani::any();
         kani::assume(len <= N);
         (buf, len)
+    }
+
+    // replay-only siblings of the skip harnesses: same assertion, tiny buffers (Kani's concrete-playback mode
+    // disables formula slicing; the 10-byte harnesses exceed 40 GB there)
+    #[kani::proof]
+    #[kani::unwind(4)]
+    fn c11_skip_small_str() {
+        let buf: [u8; 4] = kani::any();
+        kani::assume(buf[0] == 0 || (buf[0] == 0x80 && buf[1] == 0));
+        let parsed = utf16_string_parser(&buf);
+        if let Ok((rest, _)) = &parsed {
+            let skipped = skip_u16_string(&buf);
+            assert!(skipped.is_ok());
+            if let Ok((rest2, _)) = &skipped {
+                assert!(rest2.len() == rest.len(), "skip and parse leave the same remainder");
+            }
+            std::mem::forget(skipped);
+        }
+        std::mem::forget(parsed);
+    }
+
+    #[kani::proof]
+    #[kani::unwind(4)]
+    fn c11_skip_small_wid() {
+        let buf: [u8; NS] = kani::any();
+        kani::assume(buf[0] <= 1);
+        let parsed = u32_wid_array_parser(&buf);
+        if let Ok((rest, _)) = &parsed {
+            let skipped = skip_wid_array(&buf);
+            assert!(skipped.is_ok());
+            if let Ok((rest2, _)) = &skipped {
+                assert!(rest2.len() == rest.len(), "skip and parse leave the same remainder");
+            }
+            std::mem::forget(skipped);
+        }
+        std::mem::forget(parsed);
+    }
+
+    #[kani::proof]
+    #[kani::unwind(4)]
+    fn c11_skip_small_u32() {
+        let buf: [u8; NS] = kani::any();
+        kani::assume(buf[0] <= 1);
+        let parsed = u32_array_parser(&buf);
+        if let Ok((rest, _)) = &parsed {
+            let skipped = skip_u32_array(&buf);
+            assert!(skipped.is_ok());
+            if let Ok((rest2, _)) = &skipped {
+                assert!(rest2.len() == rest.len(), "skip and parse leave the same remainder");
+            }
+            std::mem::forget(skipped);
+        }
+        std::mem::forget(parsed);
     }
 
     //@H c11_skip_wid_array
@@ -54,6 +108,31 @@ mod verif_c11 {
             }
             kani::cover!(items.len() == 2, "two items");
             kani::cover!(items.len() == 1 && items[0] == 0xdead_beef, "content is read little endian from the right place");
+            std::mem::forget(skipped);
+        }
+        std::mem::forget(parsed);
+    }
+    //@END
+
+    /// the 2-byte form of the length prefix (what the writer emits from 127 units on; the reader accepts it for any length)
+    //@H c11_skip_u16_string_long_prefix
+    #[kani::proof]
+    #[kani::unwind(/*@UNW_STR@*/8)]
+    fn c11_skip_u16_string_long_prefix() {
+        let (buf, len) = any_buf();
+        kani::assume(len >= 2 && buf[0] == 0x80 && buf[1] <= /*@MAXUNITS@*/3);
+        let data = &buf[..len];
+        let parsed = utf16_string_parser(data);
+        if let Ok((rest, s)) = &parsed {
+            let skipped = skip_u16_string(data);
+            assert!(skipped.is_ok());
+            if let Ok((rest2, none)) = &skipped {
+                assert!(rest2.len() == rest.len() && rest2.as_ptr() == rest.as_ptr(), "skip and parse leave the same remainder (2-byte length prefix)");
+                assert!(none.is_empty());
+                assert!(len - rest.len() == 2 + 2 * buf[1] as usize);
+            }
+            kani::cover!(s.len() == 3 && buf[1] == 1, "3-byte character behind a 2-byte prefix");
+            kani::cover!(s.is_empty() && len > 2, "empty string behind a 2-byte prefix, followed by data");
             std::mem::forget(skipped);
         }
         std::mem::forget(parsed);
